@@ -189,6 +189,21 @@ def gen(ctx):
                               ("StickerGet", [("sticker", v)]), ("AlbumArt", [("size", v)])):
             cases.append(typed_case(ident, None, wire(fields, b"x" if ident == "AlbumArt" else None)))
             dist["value-sweep"] = dist.get("value-sweep", 0) + 1
+    # every one-edit neighbour of every valid reply: a line repeated right after itself, a line repeated at the end, a line dropped,
+    # two neighbouring lines swapped, a foreign line inserted before each line
+    for ident, base in GOOD.items():
+        params = COMMANDS[ident][0][0] if ident in COMMANDS else None
+        if ident == "CountGrouped":
+            params = "n:Album"
+        if ident == "List":
+            continue          # its parameters decide the grouping: covered by the list sweep below
+        for i in range(len(base)):
+            edits = [base[:i + 1] + [base[i]] + base[i + 1:], base + [base[i]], base[:i] + base[i + 1:], base[:i] + [("x-foreign", "1")] + base[i:]]
+            if i + 1 < len(base):
+                edits.append(base[:i] + [base[i + 1], base[i]] + base[i + 2:])
+            for fields in edits:
+                cases.append(typed_case(ident, params, wire(fields, b"x" if ident in ("AlbumArt", "AlbumArtEmbedded") else None)))
+                dist["one-edit"] = dist.get("one-edit", 0) + 1
     # values with the exact SHAPE (and byte length) of a valid one in which a multi-byte character takes the place of 2, 3 or 4 ASCII
     # characters at every position — what a fixed-offset fast path slices through — or of one character (one byte longer)
     def shaped(valid):
